@@ -14,6 +14,96 @@ type HistCase struct {
 	Profile string   `json:"profile"`
 	Docs    []string `json:"docs"`
 	Kinds   []string `json:"kinds"`
+	// other profiles handled by the process between the documents of the history (their verdicts are not looked at):
+	// what one compiled profile answers must not depend on which other profiles the process has seen
+	Interfere []string `json:"interfere,omitempty"`
+}
+
+const amlCore = "http://a.ml/vocabularies/core#"
+const amlApi = "http://a.ml/vocabularies/apiContract#"
+
+// profiles that rebind built-in aliases, declare aliases other profiles leave to the defaults, or reuse `ex` for another namespace
+func interferingProfiles(g *G) []string {
+	var out []string
+	bindings := [][2]string{{"core", NS}, {"apiContract", NS}, {"ex", amlCore}, {"ex", "http://other.org/v#"}, {"shacl", NS}, {"doc", NS}, {"zz", NS}, {"core", amlApi}}
+	k := 1 + g.n(3)
+	for i := 0; i < k; i++ {
+		var w yw
+		w.line(0, fmt.Sprintf("profile: other_%d", i))
+		w.line(0, "prefixes:")
+		seen := map[string]bool{}
+		for j := 0; j < 1+g.n(3); j++ {
+			b := bindings[g.n(len(bindings))]
+			if !seen[b[0]] {
+				seen[b[0]] = true
+				w.line(1, b[0]+": "+b[1])
+			}
+		}
+		var first string
+		for a := range seen {
+			if first == "" || a < first {
+				first = a
+			}
+		}
+		w.line(0, "violation:")
+		w.line(1, "- o")
+		w.line(0, "validations:")
+		w.line(1, "o:")
+		w.line(2, "targetClass: "+first+".T")
+		w.line(2, "message: other")
+		w.line(2, "propertyConstraints:")
+		w.line(3, first+".p0:")
+		w.line(4, "minCount: 1")
+		out = append(out, w.b.String())
+	}
+	return out
+}
+
+// a profile that leaves `core` and `apiContract` to the built-in defaults, with data in those namespaces
+func defaultsProfile(g *G, i int) (string, []string) {
+	var w yw
+	w.line(0, fmt.Sprintf("profile: hist_defaults_%d", i))
+	if g.coin(0.5) {
+		w.line(0, "prefixes:")
+		w.line(1, "ex: "+NS)
+	}
+	w.line(0, "violation:")
+	w.line(1, "- named")
+	w.line(0, "warning:")
+	w.line(1, "- pathed")
+	w.line(0, "validations:")
+	w.line(1, "named:")
+	w.line(2, "targetClass: apiContract.EndPoint")
+	w.line(2, "message: end points have a name")
+	w.line(2, "propertyConstraints:")
+	w.line(3, "core.name:")
+	w.line(4, "minCount: 1")
+	w.line(1, "pathed:")
+	w.line(2, "targetClass: apiContract.EndPoint")
+	w.line(2, "message: end points have a path")
+	w.line(2, "propertyConstraints:")
+	w.line(3, "apiContract.path:")
+	w.line(4, fmt.Sprintf("minCount: %d", 1+g.n(2)))
+	var docs []string
+	for d := 0; d < 3; d++ {
+		var nodes []map[string]any
+		for k := 0; k < 1+g.n(4); k++ {
+			n := map[string]any{"@id": nodeId(k), "@type": []string{amlApi + "EndPoint"}}
+			if g.coin(0.6) {
+				n[amlCore+"name"] = "n"
+			}
+			if g.coin(0.6) {
+				n[amlApi+"path"] = "/p"
+			}
+			if g.coin(0.3) {
+				n[NS+"name"] = "decoy"
+			}
+			nodes = append(nodes, n)
+		}
+		b, _ := json.Marshal(nodes)
+		docs = append(docs, string(b))
+	}
+	return w.b.String(), docs
 }
 
 func genHist(g *G, n int, out io.Writer) {
@@ -32,6 +122,18 @@ func genHist(g *G, n int, out io.Writer) {
 		for k := 0; k < 3; k++ {
 			pool = append(pool, g.graph(2+g.n(5), 0.4).RenderFlat())
 			kinds = append(kinds, "graph")
+		}
+		if i%3 == 1 {
+			h.Interfere = interferingProfiles(g)
+		}
+		if i%6 == 4 {
+			var docs []string
+			h.Profile, docs = defaultsProfile(g, i)
+			h.Interfere = interferingProfiles(g)
+			for _, d := range docs {
+				pool = append(pool, d, d)
+				kinds = append(kinds, "graph-defaults", "graph-defaults")
+			}
 		}
 		// lexical documents: with source information (root location), and with source maps only
 		lex := func(withInfo bool, root string) string {
